@@ -61,3 +61,31 @@ check(
     assumptions=["package time (time.Date, time.Unix, FixedZone) and math/big are correct",
                  "fixed-offset zones stand in for all zones (the conversions only use the offset)"],
 )
+
+check(
+    "C01", "block encode->decode identity", "exploration",
+    rule=("rapid draws blocks of 1-4 columns from a catalog of 718 kinds (47 scalar families x 17 compositions up to depth 3, "
+          "plus random tuples), a shared row count, values with boundary bias, a revision from both sides of every "
+          "block-affecting feature, an output buffer that is empty or pre-filled with 1-40 junk bytes; each case is run in "
+          "the default and the purego build. Distinct = hash of (names, types, reference encoding of the values, revision, "
+          "prefix). Non-trivial = at least one row and (a composite column, or a boundary-class value: empty/all-zero/"
+          "all-ones/min/max/>=127 bytes). Extra generators steer LowCardinality dictionaries to 254..257 (thorough: "
+          "65534..65537) distinct values and strings to the 16383/16384 varint boundary."),
+    quick=[unit("codec", "^TestC01", checks=2500, timeout=900),
+           unit("codec", "^TestC01", variant="purego", checks=2500, timeout=900)],
+    thorough=[unit("codec", "^TestC01", checks=40000, timeout=6000, shards=10),
+              unit("codec", "^TestC01", variant="purego", checks=40000, timeout=6000, shards=6)],
+    manifest=dict(
+        text="Generated-input search over the whole type catalog with five oracles per case: buffer independence, byte "
+             "equality with an independent reference encoder (validity + decoded values for LowCardinality, whose encoding "
+             "is not canonical), reference decoding of the library's bytes with exact consumption, library decoding of both "
+             "encodings into typed targets and through Results.Auto() read back by reflection, raw-block round trip. "
+             "Run on both builds. Exploration: no claim beyond the cases generated.",
+        design_ref="DESIGN.md 4 C01",
+        note="Trusts the harness's reference codec (written from the Native format, cross-checked against the library in "
+             "both directions). Depth > 3 and blocks above ~10^5 rows are not generated. time.Time-valued columns are fed "
+             "only instants of the documented ranges.",
+        technique="property-based testing (rapid) with an independent reference codec as differential oracle, both builds",
+    ),
+    assumptions=["reference codec in /verif/harness/ref is correct", "Tuple is generated at top level only"],
+)
